@@ -72,8 +72,45 @@ func Load(repoDir, specDir string, patterns []string, overlay map[string][]byte)
 	if len(pkgs) > 0 {
 		e.Fset = pkgs[0].Fset
 	}
+	// Index every declared function and method (generic ones included) and their function literals, deterministically.
+	var addFn func(fn *ssa.Function)
+	addFn = func(fn *ssa.Function) {
+		if fn == nil {
+			return
+		}
+		if old, ok := e.FnByName[fn.String()]; ok && old == fn {
+			return
+		}
+		if old, ok := e.FnByName[fn.String()]; !ok || (len(old.Blocks) == 0 && len(fn.Blocks) > 0) {
+			e.FnByName[fn.String()] = fn
+		}
+		for _, af := range fn.AnonFuncs {
+			addFn(af)
+		}
+	}
+	for _, sp := range prog.AllPackages() {
+		names := make([]string, 0, len(sp.Members))
+		for n := range sp.Members {
+			names = append(names, n)
+		}
+		sort.Strings(names)
+		for _, n := range names {
+			switch m := sp.Members[n].(type) {
+			case *ssa.Function:
+				addFn(m)
+			case *ssa.Type:
+				if named, ok := m.Type().(*types.Named); ok {
+					for i := 0; i < named.NumMethods(); i++ {
+						addFn(prog.FuncValue(named.Method(i)))
+					}
+				}
+			}
+		}
+	}
 	for fn := range ssautil.AllFunctions(prog) {
-		e.FnByName[fn.String()] = fn
+		if _, ok := e.FnByName[fn.String()]; !ok {
+			e.FnByName[fn.String()] = fn
+		}
 	}
 	// package-level variables assigned outside init are mutable
 	for fn := range ssautil.AllFunctions(prog) {
